@@ -17,6 +17,11 @@ Tie, re-run from VERIF_REPO's working tree on every invocation:
      of the server (a race-detector report in server/ or raftexample/ code is a violation).
  (I) the ids of all proposals of two separate process lives of the request path (hook H4, four
      connections) are pairwise different -- the NoDup premise of C07_own_reply, across restarts.
+ (H) one log entry per acknowledged command: rounds of non-idempotent commands whose commit the held
+     loop-back (hook VerifClusterLoopbackHeld) delays by 0.2-0.95 of ProposalTimeout (3 s, virtual
+     clock): entries in the log = commands, no proposal id twice, replies and keyspace = model.
+ (S) three real nodes, ProposalTimeout 3 s, two of them frozen (SIGSTOP) for 1.5 s while an INCR is
+     pending on the third: afterwards every node holds exactly 1.
  (R) a single node with 360 acknowledged INCRs in its WAL is killed and restarted (2x; thorough 5x);
      fresh connections send PING <own token> while it starts up: every non-error answer must be
      the sender's token.
@@ -24,6 +29,7 @@ Tie, re-run from VERIF_REPO's working tree on every invocation:
  the same cluster and printed as KNOWN-FINDING."""
 import collections
 import json
+import os
 import random
 import re
 import socket
@@ -137,6 +143,149 @@ def ids_obligation(d, rounds=25):
                          "connection registered under an id that also names an old entry is handed the old entry's result"), None
             seen[i] = (li, pos)
     return sum(map(len, lives)), None, None
+
+
+# ----------------------------------------------------------------------------- (H) one log entry per command
+def hold_tie(d, cases, tag="hold"):
+    """Slow (not lost) commits through the held loop-back (hook VerifClusterLoopbackHeld) with
+    ProposalTimeout lowered to 3 s of virtual time: every accepted command must be in the log exactly
+    once (count of entries = count of commands, no proposal id twice), every reply and the final
+    keyspace must be the model's (and the standalone path's).  Returns (n_steps, failing, err)."""
+    from . import c14, memlib
+    text = "".join(c.text() for c in cases)
+    old = c14.PROPOSAL_TIMEOUT_MS
+    c14.PROPOSAL_TIMEOUT_MS = str(gen_cluster.HOLD_TIMEOUT_MS)
+    try:
+        res = c14.check_programs(d, text, tag, True, cluster_mode="clusterhold")
+    finally:
+        c14.PROPOSAL_TIMEOUT_MS = old
+    if res["err"]:
+        return res["steps"], None, res["err"]
+    allc = {memlib.case_name(c): c for c in memlib.split_cases(text)}
+    # the log of every case: ids and number of entries
+    ef = d / ("%s.clusterhold.trace.entries" % tag)
+    per = collections.defaultdict(list)
+    if ef.exists():
+        for l in ef.read_text().splitlines():
+            fs = l.split()
+            if fs and fs[0] == "P":
+                try:
+                    pid = json.loads(bytes.fromhex(l.rpartition("|")[2].strip()).decode("latin-1")).get("ID")
+                except ValueError:
+                    pid = "<undecodable>"
+                per[fs[1]].append(pid)
+    for name, ids in per.items():
+        ncmd = sum(1 for l in allc.get(name, []) if l.startswith("C "))
+        dup = [i for i, n in collections.Counter(ids).items() if n > 1]
+        if dup or len(ids) != ncmd:
+            case = allc.get(name)
+            return res["steps"], dict(kind="command-in-the-log-more-than-once" if dup else "log-entries-differ-from-commands",
+                                      log_entries=len(ids), commands=ncmd, duplicated_ids=dup[:3],
+                                      case_lines=case, readable=memlib.decode_case(case) if case else None, hold=True,
+                                      model_comparison=res["failing"] and {k: v for k, v in res["failing"].items() if k != "case"},
+                                      note="the commit was only slow (held for a fraction of ProposalTimeout = 3 s, lines 'H <ms>'), not lost: "
+                                           "C07_one_entry_per_ack needs every acknowledged command to be ONE entry of the committed log; "
+                                           "each extra entry is executed by every node"), None
+    if res["failing"]:
+        f = dict(res["failing"])
+        case = f.pop("case", None)
+        f.update(case_lines=case, readable=memlib.decode_case(case) if case else None, hold=True)
+        return res["steps"], f, None
+    return res["steps"], None, None
+
+
+def shrink_hold(d, case_lines):
+    """Drop rounds/commands while the case still fails."""
+    from . import c14
+    def bad(ls):
+        n, f, err = hold_tie(d, [_Raw(ls)], "holdshrink")
+        return bool(f or err)
+    head, body, tail = case_lines[0], case_lines[1:-1], case_lines[-1]
+    i = 0
+    while i < len(body):
+        cand = body[:i] + body[i + 1:]
+        if any(l.startswith("C ") for l in cand) and bad([head] + cand + [tail]):
+            body = cand
+        else:
+            i += 1
+    return [head] + body + [tail]
+
+
+class _Raw:
+    def __init__(self, lines):
+        self.lines = lines
+
+    def text(self):
+        return "\n".join(self.lines) + "\n"
+
+
+# ----------------------------------------------------------------------------- (S) slow quorum on real nodes
+def slow_quorum(ctx, binary, rounds, tag="sq"):
+    """Three real nodes with ProposalTimeout lowered to 3 s.  Two nodes are frozen (SIGSTOP) for 1.5 s
+    -- longer than ProposalTimeout/3, shorter than the timeout and than the election timeout -- while
+    a client sends one INCR to the third: the command is slow, not lost.  If it is answered ':1' every
+    node must hold exactly 1 afterwards; whatever the answer, no node may hold more than 1.
+    Returns (failing, err, stats)."""
+    import signal
+    stats = dict(slow_rounds=0)
+    cluster = clusterlib.Cluster(binary, 3, tag="c07" + tag, env={"VERIF_PROPOSAL_TIMEOUT_MS": "3000"})
+    try:
+        cluster.start_all()
+        err = cluster.wait_ready()
+        if err:
+            return None, "cluster start-up: " + err, stats
+        for rd in range(rounds):
+            run = (ctx.seed + rd) % 3
+            frozen = [i for i in range(3) if i != run]
+            key = b"slow:%d" % rd
+            c = cluster.client(run, timeout=15.0)
+            try:
+                for i in frozen:
+                    os.kill(cluster.procs[i].pid, signal.SIGSTOP)
+                time.sleep(0.1)
+                c.send([b"incr", key])
+                time.sleep(1.5)
+            finally:
+                for i in frozen:
+                    try:
+                        os.kill(cluster.procs[i].pid, signal.SIGCONT)
+                    except OSError:
+                        pass
+            try:
+                rep = c.read()
+            except (OSError, clusterlib.ConnClosed, socket.timeout) as e:
+                rep = "-conn %r" % (e,)
+            c.close()
+            err = cluster.wait_ready(timeout=40)
+            if err:
+                return None, "cluster did not serve after the freeze: " + err, stats
+            vals = []
+            for i in range(3):
+                k = cluster.client(i, timeout=15.0)
+                vals.append(k.cmd([b"get", key]))
+                k.close()
+            stats["slow_rounds"] += 1
+            want = "$" + b"1".hex()
+            ok = all(v == want for v in vals) if rep == ":1" else all(v in (want, "$nil") for v in vals)
+            if not ok:
+                return dict(kind="slow-command-applied-more-than-once", round=rd + 1, sent_to_node=run + 1,
+                            frozen_nodes=[i + 1 for i in frozen], command="INCR %s" % key.decode(), reply=rep,
+                            value_on_each_node=[bytes.fromhex(v[1:]).decode() if v.startswith("$") and v != "$nil" else v for v in vals],
+                            slow_quorum=dict(rounds=rounds, seed=ctx.seed),
+                            note="ProposalTimeout 3 s; nodes %s were frozen for 1.5 s while the INCR was pending, then resumed: the command was slow, "
+                                 "not lost; it must take effect exactly once (C07_one_entry_per_ack)" % [i + 1 for i in frozen]), None, stats
+        for i in range(3):
+            if not cluster.alive(i):
+                return dict(kind="node-down", node=i + 1, reason=cluster.crash_reason(i) or cluster.output(i, 1000)), None, stats
+        return None, None, stats
+    finally:
+        for p in cluster.procs:
+            if p is not None and p.poll() is None:
+                try:
+                    os.kill(p.pid, signal.SIGCONT)
+                except OSError:
+                    pass
+        cluster.close()
 
 
 # ----------------------------------------------------------------------------- (R) own reply across a restart
@@ -570,7 +719,7 @@ def run(ctx):
         if berr:
             print(berr)
             return 1
-        if r.get("case_lines"):
+        if r.get("case_lines") and not r.get("hold"):
             n, diff, err = apply_tie(d, "\n".join(r["case_lines"]) + "\n", "replay")
             print(json.dumps(diff or err or "entriesToApply/publishEntries agree with ready_step on this sequence", indent=1))
             return 1 if (diff or err) else 0
@@ -581,6 +730,16 @@ def run(ctx):
             out = (d / "replay.lin").read_text()
             print(out)
             return 1 if "NONLIN" in out else 0
+        if r.get("hold") and r.get("case_lines"):
+            n, f, err = hold_tie(d, [_Raw(r["case_lines"])], "replay")
+            print(json.dumps(f or err or "every command is in the log once; replies and keyspace are the model's", indent=1, default=str)[:3000])
+            return 1 if (f or err) else 0
+        if r.get("slow_quorum"):
+            ok, log, binary = clusterlib.build_server()
+            ctx.seed = r["slow_quorum"].get("seed", ctx.seed)
+            f, err, st = slow_quorum(ctx, binary, r["slow_quorum"].get("rounds", 2), tag="replay")
+            print(json.dumps(f or err or "slow commands took effect once (%s)" % st, indent=1, default=str))
+            return 1 if (f or err) else 0
         if r.get("ids_obligation"):
             n, f, err = ids_obligation(d, r["ids_obligation"].get("rounds", 25))
             print(json.dumps(f or err or "proposal ids of two process lives are pairwise different (%d ids)" % n, indent=1))
@@ -625,6 +784,27 @@ def run(ctx):
                 if f:
                     f["broken_premise"] = {k: ids_failing[k] for k in ("kind", "id", "first", "again", "sample_life_1", "sample_life_2")}
                     failing = f
+    hsteps, sqstats = 0, {}
+    if not err and not failing:
+        hsteps, f, err = hold_tie(d, gen_cluster.gen_c07_hold_cases(ctx.seed, 150 if quick else 4000))
+        if f:
+            if f.get("case_lines"):
+                f["case_lines"] = shrink_hold(d, f["case_lines"])
+                from . import memlib
+                f["readable"] = memlib.decode_case(f["case_lines"])
+            failing = f
+    if not err and not failing:
+        ok, log, binary = clusterlib.build_server()
+        if not ok:
+            err = "server build failed: " + log[-1500:]
+        else:
+            for attempt in range(2):
+                f, e, sqstats = slow_quorum(ctx, binary, 1 if quick else 4)
+                if not (e and e.startswith("cluster start-up")):
+                    break
+            if f:
+                failing = f
+            err = err or e
     if not err and not failing:
         ok, log, binary = clusterlib.build_server()
         if not ok:
@@ -681,9 +861,10 @@ def run(ctx):
             print("KNOWN-FINDING: property=%s %s %s%s" % (PID, kf["id"], kf["text"], (" [this run: %s]" % obs) if obs else ""))
     tot_ops = sum(v.get("ops", 0) + v.get("burst_ops", 0) for v in vstats)
     cov.update(dict(
-        evaluations=nbatches + tot_ops + nids + rstats.get("startup_commands", 0),
+        evaluations=nbatches + tot_ops + nids + rstats.get("startup_commands", 0) + hsteps + sqstats.get("slow_rounds", 0),
         ready_batches=nbatches, cluster_scenarios=vstats, client_operations=tot_ops,
         proposal_ids_checked_unique_over_two_process_lives=nids, restart_own_reply=rstats,
+        slow_commit_steps_loopback=hsteps, slow_quorum_rounds_real_nodes=sqstats.get("slow_rounds", 0),
         linearizability_states_explored=sum(v.get("explored", 0) for v in vstats),
         distinct_nontrivial=len(NONTRIVIAL) + sum(v.get("keys", 0) for v in vstats),
         rule="(D) seeded logs of 0-39 entries (commands and leader no-op entries) with index base in {0,1,5,1000,2^32,2^61} and 1-24 Ready batches each, "
